@@ -282,6 +282,8 @@ class Report:
         lines = []
         for k, text in self.known_hits.items():
             lines.append(f"KNOWN-FINDING: property={self.id} {text}")
+        for old in (VERIF / "replays").glob(f"{self.id}_{self.tier}_{self.seed}_*.json"):
+            old.unlink()                          # replays of an earlier run with the same tier and seed would mislead
         for n, (what, payload, has_input) in enumerate(self.violations):
             rp = VERIF / "replays" / f"{self.id}_{self.tier}_{self.seed}_{n}.json"
             rp.parent.mkdir(exist_ok=True)
